@@ -194,6 +194,48 @@ def readEntry (k : String) (fs : FS) : Except Err Entry :=
 
 def dbRetrieve (k : String) : Prog Entry := snapshot k (readEntry k)
 
+/-! ### The intended repair of `store_model` (NOT the code as it is)
+
+  An index entry is used only if the datainfo it names can be read (a stale
+  entry left by a crash is ignored, whatever the directory iteration order),
+  and a new dataset gets a number above every number in use anywhere below
+  `.datasets` — data files, datainfo files *and index entries* — so that a
+  stale index entry can never come to name another dataset's file. -/
+
+def highestR (fs : FS) : Nat :=
+  fs.foldl (fun acc pn =>
+    if datasetsDir.isPrefixOf pn.1 then
+      match pn.1.getLast? with
+      | some (.csv n) => max acc n
+      | some (.dinfo n) => max acc n
+      | _ => acc
+    else acc) 0
+
+def usableIndex (m : MDesc) (fs : FS) : Option (String × Nat) :=
+  (children fs (hashDir m.dh)).findSome? fun x =>
+    match get fs (datasetsDir ++ [dinfoOf x]) with
+    | some (.file c) => parseDinfo c
+    | _ => none
+
+def storeFreshR (m : MDesc) (fs : FS) : List Op × Except Err Unit :=
+  let n := highestR fs + 1
+  (mkdirP fs dbRoot [.s ".datasets", .s ".hash", .s m.dh]
+    ++ [.create (hashDir m.dh ++ [.csv n]),
+        .create (datasetsDir ++ [.csv n]), .write (datasetsDir ++ [.csv n]) (.full (.csv m.dh)),
+        .create (datasetsDir ++ [.dinfo n]), .write (datasetsDir ++ [.dinfo n]) (.full (.dinfo m.di n))]
+    ++ writeModel m (some n), .ok ())
+
+def storeModelR (m : MDesc) : Prog Unit := fun fs =>
+  if isFile fs (modelPath m.key m.ext) then ([], .ok ())
+  else match usableIndex m fs with
+    | some (d, n) => (writeModel m (if d = m.di then some n else none), .ok ())
+    | none => storeFreshR m fs
+
+def storeEntryBodyR (m : MDesc) : Prog Unit :=
+  (storeModelR m).andThen (fun _ => storeResults m)
+
+def dbStoreEntryR (m : MDesc) : Prog Unit := txn m.key (storeEntryBodyR m)
+
 /-- What a completed `store_model_entry` of `m` is meant to make retrievable. -/
 def MDesc.entry (m : MDesc) : Entry :=
   { code := m.code, dataset := some m.dh, di := some m.di, res := m.res }
